@@ -198,7 +198,9 @@ def mapEntryOfJson (j : Json) : Except String MapEntry := do
 def storedOfJson (j : Json) : Except String Stored := do
   let cached ← if (← jbool j "hasCached") then do
       pure (some (← jvOfJson (← jget j "cached"), ← jbool j "current")) else pure none
-  let cluster ← if (← jbool j "hasCluster") then do pure (some (← jvOfJson (← jget j "cluster"))) else pure none
+  -- a GET that fails (injected API error) makes the cluster's copy unavailable: for the lookup it is as if the cluster had none
+  let getFail := (jstr j "getFail").toOption.getD ""
+  let cluster ← if (← jbool j "hasCluster") && getFail == "" then do pure (some (← jvOfJson (← jget j "cluster"))) else pure none
   return { group := ← jstr j "group", kind := ← jstr j "kind", ns := ← jstr j "ns", name := ← jstr j "name",
            cached := cached, cluster := cluster }
 
@@ -245,7 +247,7 @@ def demand (i : Json) (target : Ref) (obj : Json) (sj : Json) : Except String (O
     if (← jstr st "group") == srcGroup && (← jstr st "kind") == src.kind && (← jstr st "ns") == ns && (← jstr st "name") == src.name then
       if srcObj.isNone then
         if (← jbool st "hasCached") && (← jbool st "current") then srcObj := some (← jget st "cached")
-        else if (← jbool st "hasCluster") then srcObj := some (← jget st "cluster")
+        else if (← jbool st "hasCluster") && (jstr st "getFail").toOption.getD "" == "" then srcObj := some (← jget st "cluster")
   let some so := srcObj | return none
   let some tp ← optPathOfJson (← jget sj "tp") | return none
   let some sp ← optPathOfJson (← jget sj "sp") | return none
